@@ -151,7 +151,9 @@ func execC17(t *testing.T, cc any, o *Outcome) {
 			nbranches++
 		}
 	}
-	ctx := func() string { return fmt.Sprintf("rooted=%v\nhistory:\n  %s\ntree %s", rooted, strings.Join(hist, "\n  "), orig) }
+	ctx := func() string {
+		return fmt.Sprintf("rooted=%v\nhistory:\n  %s\ntree %s", rooted, strings.Join(hist, "\n  "), orig)
+	}
 	nprop := 0
 	seen := map[string]int{}
 	removed := map[string]int{}
